@@ -1517,3 +1517,6 @@ mut("table_builder_flush_unwrapped", ["C08", "C09"], "ERR-6|tables::table_builde
 mut("log_writer_flush_unwrapped", ["C08", "C09"], "ERR-6|logs::LogWriter::emit_block|callee=std::io::Write::flush", patch="log_writer_flush_unwrapped.diff",
     note="a failed WAL flush panics the writer")
 benign_patch("refactor_s12_02", "benign/set12_02_overlap_tests_map_or.diff", note='get_overlapping_compaction_inputs: before / after tests as map_or over the widening accumulators (benign twin of seed C01-T)')
+benign_patch("refactor_s12_03", "benign/set12_03_fragment_type_direct_comparisons.diff", note="LogWriter::append: fragment type decided by `remaining <= room` directly, chunk = min() (correct twin of seed C12-S)")
+mut("revert_D27", ["C17"], "GRD-9|<fs::fs_disk::OsFileSystem as fs::traits::FileSystem>::lock_file|locked-file-is-the-one-the-path-names", patch="revert_D27_lock_file_without_identity_check.diff",
+    note="a lock granted on a LOCK file that destroy_database unlinked in the meantime excludes nobody (defect D27)")
